@@ -92,6 +92,8 @@ def game_check(prop, judged, tier, seed, fam_quick, fam_thorough, mc_roots_quick
     # (M) exhaustive exploration of the reference state machine
     game.mc_chess(run, mc_roots_quick if quick else mc_roots_thorough, mc_depth_quick if quick else mc_depth_thorough,
                   invariants, workers=12, tag=prop)
+    if prop in ("C02", "C03", "C04", "C16"):
+        game.mc_engine(run, quick, prop)
     # (B) spec -> impl: TLC-enumerated families replayed into the real Game
     game.trace_dir(prop)
     fams = families(run, fam_quick if quick else fam_thorough, seed, prop)
@@ -142,7 +144,7 @@ EPR = "rnbqkbnr/ppp1p1pp/8/3pPp2/8/8/PPPP1PPP/RNBQKBNR w KQkq f6 0 3"
 def c01(tier, seed):
     game_check("C01", {"C01"}, tier, seed,
                fam_quick=[("CASTLE", 24), ("EP", 400), ("KXK", 300), ("PROMO", 40)],
-               fam_thorough=[("CASTLE", 1), ("EP", 12), ("KXK", 8), ("PROMO", 2)],
+               fam_thorough=[("CASTLE", 1), ("EP", 24), ("KXK", 16), ("PROMO", 4)],
                mc_roots_quick=[START, KIWI], mc_depth_quick=2,
                mc_roots_thorough=[START, KIWI, POS3, POS4, POS5, CAST, PROM, EPR], mc_depth_thorough=3,
                invariants=["InvSane", "InvUciInjective"],
@@ -151,7 +153,7 @@ def c01(tier, seed):
 
 
 FAMQ = [("CASTLE", 24), ("EP", 400), ("KXK", 300), ("PROMO", 40)]
-FAMT = [("CASTLE", 1), ("EP", 12), ("KXK", 8), ("PROMO", 2)]
+FAMT = [("CASTLE", 2), ("EP", 24), ("KXK", 16), ("PROMO", 4)]
 ALLROOTS = [START, KIWI, POS3, POS4, POS5, CAST, PROM, EPR]
 
 
@@ -318,8 +320,13 @@ def c05(tier, seed):
     nvar = sum(1 for p, _ in jobs for _ in open(p))
     game.judge_traces(run, jobs, {"C05"})
     with open(jobs[0][0]) as f:
-        e = json.loads(f.readline())
-        run.sample({"driver": jobs[0][1], "event": {"ev": "var", "base": "".join(e["base"]), "var": "".join(e["var"]), "b": e["b"], "v": e["v"]}})
+        for l in f:
+            e = json.loads(l)
+            if e.get("ev") == "var":
+                run.sample({"driver": jobs[0][1], "event": {"ev": "var", "base": "".join(e["base"]), "var": "".join(e["var"]), "b": e["b"], "v": e["v"]}})
+                break
+            if e.get("ev") == "states" and len(run.cov["samples"]) == 0:
+                run.sample({"driver": jobs[0][1], "event": {"ev": "states", "base": "".join(e["base"]), "combinations": len(e["list"]), "first": e["list"][:3]}})
     # positions visited by the play driver: (position, hash) pairs as an initial-state set, two views
     pj = game.play_traces(run, vh, "C05", 14 if quick else 56, 4 if quick else 10, 60 if quick else 120, 2, seed)
     pairs = {}
@@ -574,8 +581,18 @@ def c06(tier, seed):
         depths = [1, 2, 3] if quick else [1, 2, 3, 4]
         pos = rnd.sample(flat, min(len(flat), 12 if quick else 60)) + [(f, []) for f in srch.TINY]
         th = srch.table_histories(rnd, pos, games[:4 if quick else 20], depths, 300 if quick else 1500)
+        # search a position, then (same table) the dead position one finishing move later: the dead root was an
+        # interior node of the first search and its cached entry is returned without re-validation
+        fin = []
+        for fen, fm in sorted(classes.get("_finishing", {}).items()):
+            for mv in (fm.get("mate", []) + fm.get("stale", []))[:3]:
+                for da in ([3, 4] if quick else [2, 3, 4, 5]):
+                    fin.append([srch.step(fen, [], limit=da, tag="before-the-end"), srch.step(fen, [mv], limit=rnd.choice([1, 2, 3]), tag="dead-after")])
+        if quick:
+            rnd.shuffle(fin)
+            fin = fin[:250]
         rep = [[srch.step("startpos", srch.REPETITION_PREFIX, limit=d), srch.step("startpos", srch.REPETITION_PREFIX + ["g8f6"], limit=d)] for d in depths]
-        return [("scn", hs), ("tablehist", th), ("repetition", rep)]
+        return [("scn", hs), ("tablehist", th), ("finishing", fin), ("repetition", rep)]
     search_check("C06", {"C06"}, tier, seed, build)
 
 
@@ -646,6 +663,10 @@ def c08(tier, seed):
         unl = [[srch.step(f, [], limit=None, watch_ms=(1500 if quick else 20000), tag="unlimited")] for f in srch.TINY + [START, KIWI]]
         unl.append([srch.step(srch.KVK, [], limit=None, watch_ms=20000), srch.step(srch.KVK, [], limit=None, watch_ms=20000),
                     srch.step(srch.KVK, [], limit=3, watch_ms=20000)])
+        # the deep and the unlimited runs once more on the checked build: "without crashing or corrupting state" - a silent
+        # overrun of a fixed-capacity buffer is invisible in the release build and a panic there
+        vhc = core.build_harness("checked")
+        srch.run_histories(run, vh, "C08", deep[:: (2 if quick else 1)] + unl[:4], {"C08"}, "checked-deep", profile_vh=vhc)
         return [("scn", hs), ("limitpairs", pairs), ("deeplimits", deep), ("unlimited", unl)]
     search_check("C08", {"C08"}, tier, seed, build)
 
@@ -676,7 +697,7 @@ def c10(tier, seed):
         for f in dead + extra_dead:
             for d in (1, 3, None):
                 hs.append([srch.step(f, [], limit=d)])
-        run.cov["solver_classes"] = {k: len(v) for k, v in classes.items()}
+        run.cov["solver_classes"] = {k: len(v) for k, v in classes.items() if k != "_finishing"}
         return [("mates", hs)]
     search_check("C10", {"C10"}, tier, seed, build)
 
@@ -728,6 +749,38 @@ def c19(tier, seed):
             for d in rnd.sample(depths, len(depths)):
                 h.append(srch.step(f, p, limit=d, fresh=True, tag="fresh-again"))
             hs.append(h)
+        # the same statement at the UCI level, on the real binary: a fresh process vs. arbitrary histories
+        # (timed searches that end early, stopped searches, other positions) followed by ucinewgame
+        binary = core.build_bin(False)
+        targets = [("position fen " + KIWI, 6), ("position startpos", 7), ("position startpos moves e2e4 e7e5 g1f3", 6),
+                   ("position fen 8/2p5/3p4/KP5r/1R3p1k/8/4P1P1/8 w - - 0 1", 7)]
+        if not quick:
+            targets += [("position fen " + POS4, 5), ("position fen " + POS5, 5), ("position fen " + KIWI, 7), ("position startpos", 8)]
+        junk_gos = ["go movetime 400 depth 1", "go movetime 900 depth 2", "go depth 3", "go movetime 30", "go wtime 60000 btime 60000 winc 0 binc 0 depth 1"]
+        groups = []
+        for ti, (posn, dep) in enumerate(targets):
+            g = []
+            base = [{"send": posn}, {"send": "go depth %d" % dep}, {"waitbest": 60}, {"quit": True}]
+            g.append({"id": "fresh-%d" % ti, "binary": binary, "steps": base})
+            g.append({"id": "fresh-bigenv-%d" % ti, "binary": binary, "env": {"VERIF_PADDING": "x" * 20000}, "steps": base})
+            for k in range(3 if quick else 8):
+                steps = []
+                for _ in range(rnd.randrange(1, 4)):
+                    jp = rnd.choice([t[0] for t in targets] + POSITIONS[:2])
+                    jg = rnd.choice(junk_gos)
+                    steps += [{"send": jp}, {"send": jg}]
+                    if rnd.random() < 0.3:
+                        steps += [{"send": "stop"}]
+                    steps += [{"waitbest": 20}]
+                steps += [{"send": "ucinewgame"}, {"send": posn}, {"send": "go depth %d" % dep}, {"waitbest": 60}, {"quit": True}]
+                g.append({"id": "after-history-%d-%d" % (ti, k), "binary": binary, "steps": steps})
+            # the scenario named in the statement: "whatever was searched before the reset" includes a timer still asleep
+            g.append({"id": "stale-timer-%d" % ti, "binary": binary, "steps": [
+                {"send": "position startpos"}, {"send": "go movetime 500 depth 1"}, {"waitbest": 20},
+                {"send": "ucinewgame"}, {"send": posn}, {"send": "go depth %d" % dep}, {"waitbest": 60}, {"quit": True}]})
+            groups.append(g)
+        uci_outs, _ = run_sessions(run, "C19", groups, {"C19"}, "ucirepro")
+        run.cov["uci_sessions"] = sum(len(g) for g in groups)
         return [("repro", hs)]
     search_check("C19", {"C19"}, tier, seed, build)
 
@@ -864,7 +917,10 @@ def run_sessions(run, prop, sessions, judged, label, par=core.NPROC):
     worker, lets TraceSession.tla judge.  Returns list of (trace, events)."""
     d = os.path.join(game.TRACES, prop)
     os.makedirs(d, exist_ok=True)
-    chunks = [sessions[i::par] for i in range(par)]
+    if sessions and isinstance(sessions[0], list):
+        chunks = sessions            # groups that must share one trace (one monitor memory)
+    else:
+        chunks = [sessions[i::par] for i in range(par)]
 
     def mk(ic):
         i, chunk = ic
@@ -1287,3 +1343,60 @@ def c15(tier, seed):
                         "arithmetic-overflow panics of the checked build that are not index or capacity failures are reported as notes, not as C15 violations"]
     shutil.rmtree(d, ignore_errors=True)
     run.finish()
+
+
+# --------------------------------------------------------------------------- selftest of the machinery
+
+def selftest():
+    """The checks of the checks: (1) the reference rules reproduce the published perft counts; (2) the design-level
+    models, switched back to the pinned code, violate exactly the properties the repairs restored (non-vacuity);
+    (3) binding demo: one altered field of a recorded trace is reported at exactly that event, the unaltered trace is clean."""
+    vh = prepare()
+    ok = True
+
+    def say(good, msg):
+        nonlocal ok
+        ok = ok and good
+        print(("ok    " if good else "WRONG ") + msg, flush=True)
+
+    res = core.tlc_mc("MC_Perft", "mc/MC_Perft.cfg", workers=14, env={"PERFT": os.path.join(core.VERIF, "lib", "perft_cases.json")}, tag="selftest-perft")
+    say(res["ok"] and not res["violated"], "Chess.tla reproduces %d published perft counts (TLC)" % res["distinct"])
+    pinned = [("Uci", "mc/Uci_pinned_raise.cfg", None, "temporal"), ("Uci", "mc/Uci_pinned_clear.cfg", None, "Honoured"),
+              ("Uci", "mc/Uci_pinned_game.cfg", None, "NoPanic"), ("Capacity", "mc/Capacity_pinned_depth.cfg", None, "InvStack"),
+              ("Capacity", "mc/Capacity_pinned_auto.cfg", None, "InvStack"),
+              ("MC_Engine", "mc/MC_Engine_pinned.cfg", {"ROOTS": gen.gen_roots(game.ENGINE_ROOTS[:2], "roots_selftest.json")}, "InvConsistent")]
+    for mod, cfg, env, want in pinned:
+        r = core.tlc_mc(mod, cfg, workers=12, env=env, tag="selftest-" + os.path.basename(cfg), heap="12g")
+        say(r["violated"] == want, "%s with %s violates %s (got %s)" % (mod, os.path.basename(cfg), want, r["violated"]))
+    for mod, cfg, env in [("Uci", "mc/Uci_fixed.cfg", None), ("Capacity", "mc/Capacity_fixed.cfg", None)]:
+        r = core.tlc_mc(mod, cfg, workers=12, env=env, tag="selftest-" + os.path.basename(cfg), heap="12g")
+        say(r["ok"] and not r["violated"], "%s with %s holds" % (mod, os.path.basename(cfg)))
+    # binding demo on a recorded trace of the real Game
+    d = game.trace_dir("selftest")
+    t = os.path.join(d, "play.ndjson")
+    core.sh([vh, "play", "--roots", os.path.join(core.VERIF, "lib", "roots.txt"), "--seed", "7", "--games", "2", "--plies", "25", "--walk", "1", "--out", t])
+    lines = open(t).read().splitlines()
+    r0 = core.tlc_trace(t)
+    say(not [f for f in r0["fails"] if f["p"] != "DRIFT"], "unaltered trace of %d events: no judgement fails" % r0["events"])
+
+    def altered(name, pick, edit, prop):
+        idx = next(i for i, l in enumerate(lines) if pick(json.loads(l)))
+        e = json.loads(lines[idx])
+        edit(e)
+        p = os.path.join(d, name + ".ndjson")
+        open(p, "w").write("\n".join(lines[:idx] + [json.dumps(e)] + lines[idx + 1:]) + "\n")
+        r = core.tlc_trace(p, tag="selftest-" + name)
+        hit = [f for f in r["fails"] if f["p"] == prop and f["line"] == idx + 1]
+        say(bool(hit), "altered %s at event %d is reported as %s at that event" % (name, idx + 1, prop))
+
+    def drop_right(e):
+        e["o"]["cast"] = e["o"]["cast"][:-1]
+    altered("castling-right", lambda e: e["ev"] == "push" and len(e["o"]["cast"]) > 0, drop_right, "C02")
+    altered("hash-limb", lambda e: e["ev"] == "push", lambda e: e["o"]["h"].__setitem__(2, e["o"]["h"][2] ^ 1), "C04")
+    altered("score", lambda e: e["ev"] == "push", lambda e: e["o"].__setitem__("sc", e["o"]["sc"] + 10), "C16")
+    altered("legal-list", lambda e: e["ev"] == "q" and e["what"] == "lg" and len(e["val"]) > 2, lambda e: e["val"].pop(), "C01")
+    altered("take-back", lambda e: e["ev"] == "pop", lambda e: e["o"].__setitem__("sc", e["o"]["sc"] + 1), "C03")
+    altered("fen-export", lambda e: e["ev"] == "q" and e["what"] == "fen", lambda e: e["val"].__setitem__(e["val"].index(" ") + 1, "b" if e["val"][e["val"].index(" ") + 1] == "w" else "w"), "C11")
+    shutil.rmtree(d, ignore_errors=True)
+    print("selftest %s" % ("passed" if ok else "FAILED"))
+    sys.exit(0 if ok else 2)
